@@ -337,3 +337,30 @@ void h_tLweApproxPhase(void) {
     VERIF_REACH();
 }
 #endif
+
+#ifdef H_TLWE_DEC
+static int s_ph, s_ap, seq, n_new, n_del, bad; static TorusPolynomial *p_r, *a_m; static const TorusPolynomial *a_p; static const TLweSample *p_s; static const TLweKey *p_k; static int32_t a_M, a_N;
+void tLwePhase(TorusPolynomial *phase, const TLweSample *sample, const TLweKey *key) { p_r = phase; p_s = sample; p_k = key; s_ph = ++seq; Torus32 v; phase->coefsT[0] = v; }
+void tLweApproxPhase(TorusPolynomial *message, const TorusPolynomial *phase, int32_t Msize, int32_t N) { a_m = message; a_p = phase; a_M = Msize; a_N = N; s_ap = ++seq; }
+static Torus32 ap_in, ap_out; static int32_t ap_M; static int n_ap;
+Torus32 approxPhase(Torus32 phase, int32_t Msize) { n_ap++; ap_in = phase; ap_M = Msize; Torus32 r; ap_out = r; return r; }
+static TorusPolynomial *g_tmp; static int32_t new_N;
+TorusPolynomial *new_TorusPolynomial(const int32_t N) { g_tmp = verif_alloc(sizeof(TorusPolynomial)); g_tmp->coefsT = verif_alloc((size_t)N * sizeof(Torus32)); new_N = N; n_new++; return g_tmp; }
+void delete_TorusPolynomial(TorusPolynomial *obj) { if (obj != g_tmp) bad++; n_del++; free(obj->coefsT); free(obj); }
+#include "extracted.inc"
+void h_tLweSymDecrypt(void) {
+    int32_t N; __CPROVER_assume(N >= 1 && N <= VERIF_NMAX);
+    TLweParams tp; *(int32_t *)&tp.N = N; TLweKey key; key.params = &tp; TLweSample s; TorusPolynomial res; res.coefsT = verif_alloc((size_t)N * sizeof(Torus32));
+    int32_t in_M; __CPROVER_assume(in_M >= 2);
+    seq = n_new = n_del = bad = n_ap = 0;
+    tLweSymDecrypt(&res, &s, &key, in_M);
+    __CPROVER_assert(s_ph == 1 && p_r == &res && p_s == &s && p_k == &key, "first the phase b - sum a_i*s_i under the given key");
+    __CPROVER_assert(s_ap == 2 && a_m == &res && a_p == &res && a_M == in_M && a_N == N, "then every coefficient is rounded to the grid 1/Msize");
+    seq = 0;
+    Torus32 r = tLweSymDecryptT(&s, &key, in_M);
+    __CPROVER_assert(n_new == 1 && new_N == N && s_ph == 1 && p_r == g_tmp && p_s == &s && p_k == &key, "constant message: phase polynomial of N coefficients under the given key");
+    __CPROVER_assert(n_ap == 1 && ap_M == in_M && r == ap_out && n_del == 1 && bad == 0, "its coefficient 0 is rounded to the grid 1/Msize and returned; temporary released");
+    free(res.coefsT);
+    VERIF_REACH();
+}
+#endif
